@@ -21,6 +21,7 @@ Record sobs := {
    dictionary keys, so every frame name has to come back. *)
 Record storobs := {
   sr_stacks : list (bytes * N);      (* every (stack, count) ingested, in order *)
+  sr_writeback : bool;               (* the history contains a write-back tick of the periodic task *)
   sr_before : option tnode;          (* Go: storage.Get over all slots right before Close *)
   sr_after : option tnode            (* Go: the same query after Close + New *)
 }.
@@ -32,14 +33,31 @@ Definition den_of_stacks (ss : list (bytes * N)) : list (list bytes * N) :=
 Definition den_of_tree (t : option tnode) : list (list bytes * N) :=
   match t with Some t => pnz (pnorm (t_den t)) | None => [] end.
 
+(* every stack of [obs] is an ingested stack and does not carry more than was ingested for it *)
+Definition stacks_within (obs expected : list (list bytes * N)) : bool :=
+  forallb (fun pv => N.leb (snd pv) (pget (fst pv) expected)) obs.
+
+(* Histories WITHOUT a write-back tick: the profile after Close + New is exactly the sum of what was ingested.
+   Histories WITH write-back ticks: the lfu fork's persist() marks entries as saved whose hand-off was dropped
+   (known finding writeback-drop of C05/C02), so whole trees may be missing after a later eviction or Close; that is
+   not this property's business.  What C12 demands there: nothing that comes back is renamed or inflated — every stack
+   shown is a stack that was ingested, with at most its count (a key that decodes to another name, or to the
+   "label not found" text, moves counts onto stacks that were never ingested or overfills existing ones). *)
 Definition check_stor (o : option storobs) : list verdict :=
   match o with
   | None => []
   | Some r =>
-      [spec (pm_eqb (den_of_tree (sr_after r)) (den_of_stacks (sr_stacks r)))
-            "after Close + New a stored profile does not show the frame names (stacks and counts) that were ingested";
-       corr (pm_eqb (den_of_tree (sr_before r)) (den_of_stacks (sr_stacks r)))
-            "storage: the profile rendered before the restart is not the sum of what was ingested"]
+      let expected := den_of_stacks (sr_stacks r) in
+      if sr_writeback r then
+        [spec (stacks_within (den_of_tree (sr_after r)) expected)
+              "after Close + New a stored profile shows a stack (frame names) or a count that was never ingested";
+         spec (stacks_within (den_of_tree (sr_before r)) expected)
+              "before the restart a stored profile shows a stack or a count that was never ingested"]
+      else
+        [spec (pm_eqb (den_of_tree (sr_after r)) expected)
+              "after Close + New a stored profile does not show the frame names (stacks and counts) that were ingested";
+         corr (pm_eqb (den_of_tree (sr_before r)) expected)
+              "storage: the profile rendered before the restart is not the sum of what was ingested"]
   end.
 
 Definition gres_eqb (a b : gres) : bool :=
